@@ -703,6 +703,7 @@ func (x *Unit) applyContract(st *State, pc *preparedCall) []Term {
 	ord := x.callOrd["call:"+pc.name]
 	// preconditions
 	if len(c.Requires) > 0 {
+		x.assumeAxioms(st) // axioms read (immutable) heap fields: re-instantiate them for objects allocated since entry
 		env := x.contractEnv(st, st, pc, nil)
 		for _, r := range c.Requires {
 			cond := env.boolOf(r.Expr)
